@@ -190,6 +190,8 @@ impl Edge {
     /// write the edge
     ///
     pub fn write(&self, conn: &Connection) -> std::result::Result<(), rusqlite::Error> {
+        #[cfg(feature = "verif")]
+        crate::verif::fault("edge_write")?;
         let mut insert_stmt = conn.prepare_cached(
             "INSERT OR REPLACE INTO _edge (src, src_entity, label, dest, cdate, verifying_key, signature) 
                             VALUES (?, ?, ?, ?, ?, ?, ?)",
@@ -556,6 +558,8 @@ impl EdgeDeletionEntry {
 }
 impl Writeable for EdgeDeletionEntry {
     fn write(&mut self, conn: &Connection) -> std::result::Result<(), rusqlite::Error> {
+        #[cfg(feature = "verif")]
+        crate::verif::fault("edge_deletion_write")?;
         let mut insert_stmt = conn.prepare_cached(
             "INSERT OR REPLACE INTO _edge_deletion_log (
             room_id,
